@@ -348,7 +348,11 @@ func (w *world) reg(kind string) (ociregistry.Interface, string) {
 		w.built[kind] = b
 	}
 	w.n[kind]++
-	return b.Reg, fmt.Sprintf("up/r%d", w.n[kind]%2000)
+	// repository names built from the routing layer's own words as well: an upload URL is
+	// <repository>/blobs/uploads/<id>, and the repository must survive being taken out of it again
+	shapes := []string{"up/r%d", "library/blobstore/r%d", "x/blobs/uploads/r%d", "blobs/r%d", "mirror/blobs-mirror/r%d", "m/manifests/r%d", "u/uploads/r%d", "t/tags/list/r%d", "r%d/blobs"}
+	shape := shapes[w.n[kind]%len(shapes)]
+	return b.Reg, fmt.Sprintf(shape, w.n[kind]%2000)
 }
 
 func (w *world) exec(s *scenario) {
